@@ -2578,12 +2578,13 @@ class RedunBackendDb(RedunBackend):
         # Try to detect previous Handles that have skipped recording
         # such as due to multiple chained fork calls.
         queue = [
-            parent_handle.__handle__.fork_parent
+            (parent_handle.__handle__.fork_parent, parent_handle)
             for parent_handle in parent_handles
             if parent_handle.__handle__.fork_parent and not parent_handle.__handle__.is_recorded
         ]
+        fork_edges = []
         while queue:
-            _handle = queue.pop()
+            _handle, _forked_handle = queue.pop()
             get_or_create(
                 self.session,
                 Handle,
@@ -2596,8 +2597,11 @@ class RedunBackendDb(RedunBackend):
                 {"is_valid": True},
             )
             _handle.__handle__.is_recorded = True
+            # A fork is a state transition too: remember its edge so that rollbacks of
+            # the forked-from handle reach the fork and everything derived from it.
+            fork_edges.append((_handle.__handle__.hash, _forked_handle.__handle__.hash))
             if _handle.__handle__.fork_parent:
-                queue.append(_handle.__handle__.fork_parent)
+                queue.append((_handle.__handle__.fork_parent, _handle))
 
         # Get or create child_handle.
         child_row, _ = get_or_create(
@@ -2636,6 +2640,15 @@ class RedunBackendDb(RedunBackend):
                     "parent_id": parent_handle.__handle__.hash,
                     "child_id": child_handle.__handle__.hash,
                 },
+            )
+
+        # Record edges for forks that were made outside of a recorded advance
+        # (all their Handle rows exist by now).
+        for parent_hash, child_hash in fork_edges:
+            get_or_create(
+                self.session,
+                HandleEdge,
+                {"parent_id": parent_hash, "child_id": child_hash},
             )
 
         self.session.commit()
